@@ -243,8 +243,10 @@ the check reports the tie as broken). -/
 theorem locale_protocols_simple : Gen.localeProtocols.all (fun p => p.simple) = true := by decide +kernel
 
 /-- VERDICT, valid on every tree: the full statement holds iff the kernel-evaluated symbolic check accepts every
-extracted protocol.  (`#eval Gen.localeProtocols.all (·.restoring)` is printed by the check; on the tree this was
-written against it is `false`: CompoundParser ends in the literal locale "C".) -/
+extracted protocol.  (The check evaluates `Gen.localeProtocols.all (·.restoring)` on every run and demands that the
+real library agrees.  Before /repo commit cc18f9b it was `false` — CompoundParser saved the RETURN value of
+`setlocale(LC_NUMERIC, "C")` and ended in "C" whatever it found (finding C16-1, DESIGN §4 #5); since that repair the
+extracted protocol is `[query, setLit "C", setRet 0]` and the verdict is `true`.) -/
 theorem purity_full_iff : purity_full ↔ Gen.localeProtocols.all (fun p => p.restoring) = true := by
   constructor
   · intro h
